@@ -3,6 +3,7 @@ import re
 import vlib, runcorr, progcheck, noise, nlast
 
 COQ_TARGETS = ["props/C02.vo", "corr/CorrVerify.vo", "corr/CorrRun.vo"]
+NEEDS_DEBUG = True
 RULE = ("every source the REAL front end accepts - generated well-formed programs, token-level mutants (delete, duplicate, "
         "swap, replace) of such programs that still compile, random token sequences that happen to compile, a directed "
         "corpus - has its REAL bytecode (bytes + pool dumped by the harness) handed to the proved checker of "
@@ -112,7 +113,8 @@ def run(ctx, log):
                                    what="the proved bytecode verifier rejects the code the real compiler produced for this accepted source (no probe fired on the path taken): " + comp[i][:300]))
     fam = progcheck.deep_recursion_family()
     fo = vlib.nlh("eval", ["6000000 " + vlib.hexs(s) for s, _ in fam], tag="c02f", timeout=600)
-    for (s, val), o in zip(fam, fo):
+    fd = vlib.nlh("eval", ["6000000 " + vlib.hexs(s) for s, _ in fam], tag="c02fd", profile="debug", timeout=1200)
+    for (s, val), o in list(zip(fam, fo)) + list(zip(fam, fd)):
         ctx.seen(s)
         h = progcheck.head(o)
         if h not in ("OK i%d" % val, "ERR Type") and not h.startswith("BUDGET"):
